@@ -13,6 +13,7 @@ package main
 //           returned together with a non-EOF error (thresholds.go)
 //  which=6  gzip request history with failing bodies of every kind (thresholds.go)
 //  which=7  phases of concurrent requests on one plugin: warm pools (thresholds.go)
+//  which=8  scripted requests under a controller whose In blocks BEFORE it reads the bytes, pool poisoning (gated.go)
 
 import (
 	"bytes"
@@ -45,14 +46,19 @@ type c11Ctl struct {
 }
 
 func (c *c11Ctl) In(id pipeline.SourceID, _ string, _ pipeline.Offsets, data []byte, _ bool, _ metadata.MetaData) uint64 {
+	// the hook runs BEFORE the bytes are looked at: a request that a driver parks in here (hold / overlap of the
+	// concurrent and history streams) is parked like in the real pipeline.In, which waits for a free event first and
+	// copies `data` afterwards; what is recorded is what `data` holds when the gate opens
 	c.mu.Lock()
-	c.events[id] = append(c.events[id], append([]byte(nil), data...))
-	c.log = append(c.log, append([]byte(nil), data...))
 	f := c.onIn
 	c.mu.Unlock()
 	if f != nil {
 		f(id)
 	}
+	c.mu.Lock()
+	c.events[id] = append(c.events[id], append([]byte(nil), data...))
+	c.log = append(c.log, append([]byte(nil), data...))
+	c.mu.Unlock()
 	return 1
 }
 func (c *c11Ctl) UseSpread()                        {}
@@ -283,6 +289,8 @@ func c11Exec(which int, cs hx.Sx) hx.Sx {
 		return c11ExecFaults(cs)
 	case 7:
 		return c11ExecPhases(cs)
+	case 8:
+		return c11ExecGated(cs)
 	}
 	if which == 4 {
 		return c11ExecHistory(cs)
@@ -732,10 +740,12 @@ func c11Gen(c *hmain.Ctx) {
 	}
 	// 8. streams that cross the 16 KiB / pool / reader-history thresholds (thresholds.go)
 	c11GenThresholds(c)
+	// 9. back-pressure: In blocks before it reads the bytes while other requests run / the pools are poisoned (gated.go)
+	c11GenGated(c)
 }
 
 func main() {
 	hmain.Run(&hmain.Prop{ID: "C11",
-		Rule: "exhaustive: every body over {a,b,\\n,\\r} up to the tier's length x every chunking; random bodies/chunkings incl. reads > 16KiB, empty reads, read errors, gzip, source-id scripts, scripted concurrent requests, gzip request histories (good / rejected / two overlapping large requests on one plugin); reads returning data together with io.EOF / an error (exhaustive up to length 4|6 + random), newlines at the 16 KiB read-buffer boundary, phases of concurrent requests over warm pools, gzip histories with truncated / corrupted / multi-member / chunked bodies. Non-trivial = body has a newline and >= 2 reads, or a read error / id script of >= 3 ops / concurrent case; distinct = distinct (sub-model, case) text.",
+		Rule: "exhaustive: every body over {a,b,\\n,\\r} up to the tier's length x every chunking; random bodies/chunkings incl. reads > 16KiB, empty reads, read errors, gzip, source-id scripts, scripted concurrent requests, gzip request histories (good / rejected / two overlapping large requests on one plugin); reads returning data together with io.EOF / an error (exhaustive up to length 4|6 + random), newlines at the 16 KiB read-buffer boundary, phases of concurrent requests over warm pools, gzip histories with truncated / corrupted / multi-member / chunked bodies; requests parked inside a controller.In that blocks before reading its bytes (at every event of small bodies: unterminated tail / middle line, carry-over or read buffer) while other plain / gzip requests run, park too or every pooled buffer is poisoned, under GOMAXPROCS(1). Non-trivial = body has a newline and >= 2 reads, or a read error / id script of >= 3 ops / concurrent case; distinct = distinct (sub-model, case) text.",
 		Gen:  c11Gen, Exec: c11Exec})
 }
